@@ -2,6 +2,7 @@ package main
 
 import (
 	"fmt"
+	"os"
 	"math/rand"
 	"runtime/debug"
 	"sort"
@@ -20,16 +21,34 @@ import (
 // marked shared, a parent that keeps a pointer where the code prunes — shows up in the operation
 // that makes it, not when (and if) it later corrupts somebody's contents.
 
+// measured over a run: operations with an injected load failure, how many of them returned an
+// error, and how many of those left the tree changed (the recorded C12 findings)
+var ptrFaultOps, ptrFaultErrs, ptrFaultChanged int
+
 type ptrExec struct {
 	*Session
-	last string
+	last  string
+	lastK int
+}
+
+func (p *ptrExec) ModelLine(line string) string {
+	t := strings.Fields(line)
+	if len(t) > 2 && t[0] == "pfailr" {
+		return fmt.Sprintf("pfail %d %s", p.lastK, strings.Join(t[2:], " "))
+	}
+	return p.Session.ModelLine(line)
 }
 
 func ptrExecutor(c Cfg) Executor {
 	return &ptrExec{Session: NewSession(c), last: "-"}
 }
 
-var ptrRunner = Runner{Mk: ptrExecutor}
+var ptrRunner = Runner{Mk: ptrExecutor, Norm: func(line, obs string) string {
+	if strings.HasPrefix(line, "pfail") {
+		return "" // the functional model knows no faults: only the following pgraph is compared
+	}
+	return obs
+}}
 
 func (p *ptrExec) Exec(line string) (obs, viol string) {
 	t := strings.Fields(line)
@@ -43,6 +62,67 @@ func (p *ptrExec) Exec(line string) (obs, viol string) {
 		t = strings.Fields(line)
 	case "pgraph":
 		return p.pgraph(), ""
+	case "pfail", "pfailr":
+		// pfail <k> <op...>: the k-th store load of the operation fails (1-based); the outcome is
+		// compared through the next pgraph (the model predicts the state an error leaves behind)
+		var k int
+		fmt.Sscan(t[1], &k)
+		if t[0] == "pfailr" {
+			// k = 1 + (r mod the number of store loads the operation performs), counted on a throwaway
+			// clone when there is no cache (with a cache the count run would warm it)
+			k = 1 + k%3
+			var slot int
+			if len(t) >= 4 {
+				fmt.Sscan(t[3], &slot)
+			}
+			if m := p.Trees[slot]; m != nil && p.Cache == nil && (t[2] == "ins" || t[2] == "del" || t[2] == "get" || t[2] == "iter") {
+				var r int
+				fmt.Sscan(t[1], &r)
+				if c, err := m.Clone(p.ctx); err == nil {
+					saveT, saveO := p.Trees[slot], p.Oracle[slot]
+					p.Trees[slot], p.Oracle[slot] = &c, copyMap(saveO)
+					p.Store.ResetTraffic()
+					p.Session.Exec(strings.Join(t[2:], " "))
+					n := len(p.Store.Loads)
+					p.Trees[slot], p.Oracle[slot] = saveT, saveO
+					if n > 0 {
+						k = 1 + r%n
+					}
+				}
+			}
+		}
+		p.lastK = k
+		p.Store.ResetTraffic()
+		p.Store.FailLoad = func(n int, name string) error {
+			if n == k-1 {
+				return errInjected
+			}
+			return nil
+		}
+		line = strings.Join(t[2:], " ")
+		t = t[2:]
+		ptrFaultOps++
+		var szBefore uint64
+		var slot = -1
+		if len(t) >= 2 {
+			fmt.Sscan(t[1], &slot)
+			if m := p.Trees[slot]; m != nil {
+				szBefore = m.Size()
+			}
+		}
+		defer func() {
+			p.Store.FailLoad = nil
+			viol = ""
+			if os.Getenv("VERIF_PTR_DEBUG") != "" {
+				fmt.Fprintf(os.Stderr, "pfail k=%d cache=%s loads=%d %s -> %.60s\n", k, p.Cfg.Cache, len(p.Store.Loads), line, obs)
+			}
+			if strings.HasPrefix(obs, "err other") {
+				ptrFaultErrs++
+				if m := p.Trees[slot]; m != nil && m.Size() != szBefore {
+					ptrFaultChanged++
+				}
+			}
+		}()
 	}
 	obs, viol = p.Session.Exec(line)
 	switch t[0] {
@@ -173,7 +253,7 @@ func (p *ptrExec) pgraph() string {
 // inserts, updates, deletes (biased towards high-layer keys: merges and height reductions),
 // lookups and full iterations (which fill the cache) interleaved on any of them.
 func genPtrCase(r *rand.Rand, cfg Cfg) Case {
-	cfg.Cache = pick(r, []string{"none", "recbig", "recbig"})
+	cfg.Cache = pick(r, []string{"none", "recbig"})
 	if r.Intn(2) == 0 {
 		cfg.BF = pick(r, []uint{2, 2, 3, 4})
 	}
@@ -256,6 +336,53 @@ func genPtrCase(r *rand.Rand, cfg Cfg) Case {
 		}
 		ops = append(ops, "pgraph")
 	}
+	if r.Intn(3) != 0 {
+		// last operation of the case: an insert / delete / lookup / iteration / clone / persist whose
+		// k-th store load fails (the model predicts what the failed call leaves behind)
+		s := pick(r, slots)
+		m := live[s]
+		if nroot > 0 && r.Intn(4) != 0 {
+			// operate on a tree freshly loaded from a persisted root: its nodes are in the store
+			ri := r.Intn(nroot)
+			for j := 0; j < nroot; j++ {
+				if len(rootMaps[j]) > len(rootMaps[ri]) && r.Intn(2) == 0 {
+					ri = j // prefer the larger versions
+				}
+			}
+			ops = append(ops, fmt.Sprintf("load %d 4", ri), "pgraph")
+			s, m = 4, copyMap(rootMaps[ri])
+		}
+		var op string
+		switch r.Intn(6) {
+		case 0, 1:
+			op = opIns(s, pick(r, uni), uint64(7+r.Intn(2)))
+		case 2, 3:
+			var ks []uint64
+			for _, u := range uni {
+				if _, ok := m[u]; ok {
+					ks = append(ks, u)
+				}
+			}
+			if len(ks) == 0 {
+				op = opIns(s, pick(r, uni), 7)
+				break
+			}
+			k := pick(r, ks)
+			if r.Intn(2) == 0 {
+				for _, u := range ks {
+					if cfg.RefLayer(u) > cfg.RefLayer(k) {
+						k = u
+					}
+				}
+			}
+			op = opDel(s, k, m[k])
+		case 4:
+			op = pick(r, []string{fmt.Sprintf("get %d %d", s, pick(r, uni)), fmt.Sprintf("iter %d", s)})
+		default:
+			op = pick(r, []string{fmt.Sprintf("clone %d %d", s, r.Intn(5)), fmt.Sprintf("root %d %d", s, nroot)})
+		}
+		ops = append(ops, fmt.Sprintf("pfailr %d %s", r.Intn(1000), op), "pgraph")
+	}
 	return Case{cfg, ops}
 }
 
@@ -267,4 +394,10 @@ func famPtr(f *FamCtx) {
 	for i := 0; i < n; i++ {
 		f.RunTreeCase(f.Gen(), ptrRunner, multiLevel)
 	}
+	if f.Report.Stats == nil {
+		f.Report.Stats = map[string]interface{}{}
+	}
+	f.Report.Stats["ops_with_injected_load_failure"] = ptrFaultOps
+	f.Report.Stats["of_those_returned_the_injected_error"] = ptrFaultErrs
+	f.Report.Stats["of_those_left_a_changed_size"] = ptrFaultChanged
 }
